@@ -64,8 +64,9 @@ package stack
 //@   requires implies(protocol == header.TCPProtocolNumber, len(hdr.buf) - hdr.usedIdx >= 20 && int(hdr.buf[hdr.usedIdx + 12] >> 4) * 4 == len(hdr.buf) - hdr.usedIdx)
 //@   ensures implies(protocol == header.TCPProtocolNumber, ghost(tcpSegs) == old(ghost(tcpSegs)) + 1
 //@             && ghost(lastTCPFlags) == int(old(hdr.buf[hdr.usedIdx + 13])) && ghost(lastTCPSeq) == int(old(be32(hdr.buf, hdr.usedIdx + 4))) && ghost(lastTCPAck) == int(old(be32(hdr.buf, hdr.usedIdx + 8))))
-//@   ensures implies(protocol != header.TCPProtocolNumber, ghost(tcpSegs) == old(ghost(tcpSegs)))
-//@   modifies everything(), ghost(tcpSegs), ghost(lastTCPFlags), ghost(lastTCPSeq), ghost(lastTCPAck)
+//@   ensures implies(protocol == header.TCPProtocolNumber, ghost(sentNonFin) == old(ghost(sentNonFin)) + ite(old(hdr.buf[hdr.usedIdx + 13]) & 1 == 0, 1, 0) && ghost(sentFin) == old(ghost(sentFin)) + ite(old(hdr.buf[hdr.usedIdx + 13]) & 1 != 0, 1, 0))
+//@   ensures implies(protocol != header.TCPProtocolNumber, ghost(tcpSegs) == old(ghost(tcpSegs)) && ghost(sentNonFin) == old(ghost(sentNonFin)) && ghost(sentFin) == old(ghost(sentFin)))
+//@   modifies everything(), ghost(tcpSegs), ghost(lastTCPFlags), ghost(lastTCPSeq), ghost(lastTCPAck), ghost(sentNonFin), ghost(sentFin)
 
 // C06 at the hand-over from network to link layer: an IPv4 packet is handed down with a total
 // length field that equals the bytes it carries, and a header checksum that verifies.
